@@ -129,7 +129,9 @@ pub fn otel(seed: u64, n: usize, out: &mut dyn std::io::Write) {
     let mut r = Rng::new(seed);
     let mut nrec = 0;
     for k in 0..n {
-        let nb = match k % 5 { 0 => 0, 1 => 1, 2 => 40, _ => r.below(10) };
+        // sizes around the OTel SDK's customary export batch of 512 included: every record of a
+        // large report must still be exported exactly once
+        let nb = match k % 12 { 0 => 0, 1 => 1, 2 => 40, 7 => 511 + r.below(4), 11 => 1000 + r.below(1100), _ => r.below(10) };
         let batch: Vec<SpanRecord> = (0..nb).map(|_| rand_record_realistic(&mut r, false)).collect();
         nrec += batch.len();
         let mut line = format!("O {}", batch.len());
